@@ -143,20 +143,22 @@ theorem selected_independent_of_pattern (f : σ → α → Step σ α) (sel : α
   exact ⟨h1.trans h1'.symm, h2.trans h2'.symm, h3.trans h3'.symm⟩
 
 /-- **Unselected values come out as the very same values, each once, in unchanged relative order**: at
-the positions of `B` stand the values of `B` themselves — all of them if the run ends normally, those
-consumed before the exception otherwise. -/
+the positions of `B` stand the values of `B` themselves — all of them if the run ends normally; if a selected
+value raises, exactly those that stand before it in the flow (`consumedB`: the `false` entries of the pattern
+before the position of the failing block). -/
 theorem unselected_same_objects_in_order (f : σ → α → Step σ α) (sel : α → Bool) (hp : Passes f sel)
     (p : List Bool) (A B : List α) (s : σ) (hpat : IsPattern p A B) (hB : ∀ b ∈ B, sel b = false) :
     ((loop f s A).err = none →
       pick false p (loop f s (merge p A B)).blocks = B.map (fun b => [b])) ∧
-    ∃ k, pick false p (loop f s (merge p A B)).blocks = (B.take k).map (fun b => [b]) := by
+    pick false p (loop f s (merge p A B)).blocks =
+      (B.take (consumedB (loop f s A).err.isSome p (loop f s A).blocks.length)).map (fun b => [b]) := by
   rw [interleave_law f sel hp p A B s hpat hB]
   constructor
   · intro he
     simp only [he, Option.isSome_none]
     apply pick_false_mergeBlocks_of_ok p _ B hpat.2
     rw [hpat.1]; exact loop_blocks_length_of_ok f A s he
-  · exact pick_false_mergeBlocks_prefix p _ B _
+  · exact pick_false_mergeBlocks_cut p _ B _
 
 /-- the same, read on the flat output stream: the unselected values are a subsequence of what is yielded
 (same objects, same relative order) — all of them when the run ends normally -/
